@@ -338,6 +338,42 @@ fn c05_input_ipa_plain_3() {
 }
 """), shared=[G.SUBRULE_SHARED], functions=["SubRule::input_match_ipa", "Word::seg_length_at"], symbolic="4 bundles (2^160), stress, tone", shape="[x a a a y], input element c", unwind=8, stubs=STUBS, weight=2))
 
+    # ------------------------------------------------------------------ stress / tone modifiers on `%` (a whole syllable) as input and as context element
+    for (which, call, extra) in [("input", "sub.input_match_syll(&mut caps, &mut si, &@M@, &tn, &None, &w, &mut pos)", True), ("context", "sub.context_match_syll(&@M@, &tn, &None, &w, &mut pos, true)", False)]:
+        nm = "c05_syll_element_%s" % which
+        hs.append(G.H(nm, "match-syllable-element", "subrule", G.T(HDR + """
+fn @name@() {
+    // `%:[±stress, ±sec.stress, tone:n]` met at the start of the second syllable of [x0].[x1 x2] and in its middle
+    let st = any_stress(); let tone: u16 = kani::any();
+    let mut w = empty_word();
+    w.syllables.push(syll_of(&[any_seg()], any_stress(), kani::any()));
+    w.syllables.push(syll_of(&[any_seg(), any_seg()], st, tone));
+    let sub = mk_sub(RuleType::Substitution);
+    let tn: Option<u16> = if kani::any() { Some(kani::any()) } else { None };
+    let mid: bool = kani::any();
+    let mut pos = SegPos::new(1, if mid { 1 } else { 0 });
+    let mut caps: Vec<MatchElement> = Vec::new();
+    let mut si = 0usize;
+    let k: u8 = kani::any();
+    kani::assume(k < 9);
+@dec@
+    let r = match k {
+@arms@
+    };
+    let exp = !mid && ref_match_stress(st, la, lb) && match tn { Some(t) => t == tone, None => true };
+    match r { Ok(v) => assert!(v == exp, "role=syllable-element-stress-tone-table"), Err(_) => assert!(false, "role=unexpected-error") }
+    if exp { assert!(pos == SegPos::new(2, 0), "role=cursor-after-syllable-element"); }
+    @capcheck@
+    kani::cover!(exp && k == 6);
+    kani::cover!(!exp && !mid && k == 3 && st == StressKind::Primary);
+    kani::cover!(exp && tn == Some(0));
+    kani::cover!(mid);
+    std::mem::forget(sub); std::mem::forget(w); std::mem::forget(caps);
+}
+""", name=nm, dec=dec, arms=arms9(call, "stress"), capcheck='assert!(caps.len() == if exp { 1 } else { 0 } && si == if exp { 1 } else { 0 }, "role=capture-recorded-iff-matched");' if extra else ""),
+            shared=[G.SUBRULE_SHARED], functions=["SubRule::%s_match_syll" % which, "SubRule::match_stress", "SubRule::match_tone", "Word::in_bounds"],
+            symbolic="stress (3), all u16 tones, optional tone argument, 9 combinations of stress/sec.stress, position (syllable start / middle), bundles", shape="%% as %s element on [x0].[x1 x2]" % which, unwind=8, stubs=STUBS, weight=2))
+
     # ------------------------------------------------------------------ the run-length primitive itself, nothing assumed about the bundles
     for n_seg in ((3, 4, 5) if tier == "thorough" else (4,)):
         xs = ["x%d" % i for i in range(n_seg)]
